@@ -161,10 +161,12 @@ var triviaPool = []string{
 	"/*/ x */", "/*//////\n * banner\n //////*/", "/***/", "/*/*/", "/** doc **/", "/* // */", "//\n", "///* x\n", "/* * / */", "//*/\n",
 	// characters of more than one byte before a token on the same line (columns count characters)
 	"/* Größe 日本語 😀 */", "/* é */ ",
+	// a carriage return on its own is not a line break: the line comment goes on to the line feed
+	"// was:\r    leaf old { type string; }\n", "// a\r}\n", "/* a\rb */", "//\r{\n",
 }
 
 // the trivia inserted in single-boundary mode rotates over these
-var boundaryTrivia = []string{" /* b */ \n\t// lc\n ", " /*/ b */ ", "\n//*/ lc\n", " /***/\t", " /*/*/ ", " /* Größe 日本語 */ ", "\n /* 😀é */ "}
+var boundaryTrivia = []string{" /* b */ \n\t// lc\n ", " /*/ b */ ", "\n//*/ lc\n", " /***/\t", " /*/*/ ", " /* Größe 日本語 */ ", "\n /* 😀é */ ", "\n// was:\r leaf old { type string; }\n", " //\r}\n"}
 
 // boundary is called at every token boundary; it may emit trivia.  sepNeeded
 // forces at least one separating blank.
